@@ -602,6 +602,10 @@ def solve_projection_onto_manifold_newton_with_line_search(
                 if new_error < error:
                     break
                 step_size *= 0.5
+            else:
+                # no trial step decreased the error: keep the position update
+                # consistent with the step size applied to the multipliers below
+                state.pos = pos_curr + step_size * delta_pos
             mu += step_size * delta_mu
         except (ValueError, LinAlgError) as e:
             # Make robust to errors in intermediate linear algebra ops
